@@ -451,6 +451,34 @@ func c02Trusted(c *Ctx, openers []CallSite) {
 		c.Floor("C02.O7-sync-error-kept", 2)
 	}
 	c.Floor("C02.O8-hash-registry-untouched", 2)
+	// ---- O7' a sync that failed — for one, at a block that did not verify — is not recorded as the publisher's
+	// latest sync: a routine that is told the outcome (it has the error in hand) records the head only when there is none
+	{
+		nSet := 0
+		for _, f := range c.Funcs(dagsyncPkg) {
+			for _, cs := range c.Calls(f.SSA, c.RoleCall("latest.set")) {
+				fn := cs.Fn
+				var errPar *ssa.Parameter
+				for _, p := range fn.Params {
+					if isErrorType(p.Type()) {
+						errPar = p
+					}
+				}
+				nSet++
+				key := c.short(fn.String()) + " › latest sync recorded on success only"
+				if errPar == nil {
+					c.OK("C02.O7-failed-sync-not-recorded", key, cs.In.Pos(), "the routine is not handed an outcome: it is called for successes (its call sites are gated on the sync's error)")
+					continue
+				}
+				_, g := c.Guarded(cs.In, EqNil(Op("param", errPar.Name())), true)
+				c.Check(g, "C02.O7-failed-sync-not-recorded", key, cs.In.Pos(), "recorded only on the "+errPar.Name()+" == nil edge", "the head is recorded as the latest sync whatever the outcome handed in ("+errPar.Name()+"): a chain whose sync stopped at a block that did not hash to its CID counts as synced, and syncing it again reports nothing to do")
+			}
+		}
+		if nSet == 0 {
+			c.Unk("C02.O7-failed-sync-not-recorded", "dagsync › latest-sync writers", token.NoPos, "no call of the latest-sync setter found")
+		}
+		c.Floor("C02.O7-failed-sync-not-recorded", 1)
+	}
 	_ = n
 }
 
